@@ -211,6 +211,24 @@ func c03Cases(thorough bool, emit func(spellCase)) {
 		}
 		emit(spellCase{"ident-literal-escape", `$.k\` + string(r), Path{E: eRoot(sKey("k" + string(r)))}})
 	}
+	// (b') raw (unescaped) identifier characters: every code point that the documented identifier rule
+	// (Unicode XID_Start / XID_Continue, plus '_') admits, in a bare key and an unquoted variable
+	lim := rune(0x3100)
+	if thorough {
+		lim = 0x110000
+	}
+	for r := rune(0x80); r < lim; r++ {
+		if r >= 0xD800 && r <= 0xDFFF {
+			continue
+		}
+		if isIdentCont(r) {
+			emit(spellCase{"raw-identifier-rune/continue", "$.k" + string(r) + ".b", Path{E: eRoot(sKey("k"+string(r)), sKey("b"))}})
+			emit(spellCase{"raw-identifier-rune/variable", "$x" + string(r) + "[0]", Path{E: eVar("x"+string(r), sIndex(sub1(eInt(0))))}})
+		}
+		if isIdentStart(r) {
+			emit(spellCase{"raw-identifier-rune/start", "$." + string(r) + "k == 1", Path{E: eCmp("==", eRoot(sKey(string(r)+"k")), eInt(1))}})
+		}
+	}
 	// (c) numbers: value grid x spellings x positions x followers
 	type numSpell struct {
 		text  string
@@ -654,7 +672,7 @@ func c03WhitespaceCases(thorough bool, emit func(spellCase)) {
 }
 
 func runC03(r *Run) {
-	r.Rule("abstract paths rendered in every permitted spelling and parsed by the implementation, tree compared through exported accessors with the abstract path the spelling was generated from: every escape spelling (\\xNN, \\uNNNN incl. surrogate pairs, \\u{N} in every digit count, \\b\\f\\n\\r\\t\\v, \\c) of every code point of a boundary set (thorough: every Unicode scalar value) in 5 quoted roles and as bare-identifier escapes x 12 followers (end of input, each white space, comments, punctuation); a numeric grid in decimal/hex/octal/binary/underscore/exponent/.5/5. forms x 11 positions x followers; every case pattern of every keyword; != vs <>; every operator pair (thorough: triple) with minimal and full parentheses, redundant parentheses, predicates and connectives, strict/lax; white space and comments at every token boundary of 130 seeds; every generated program (full language <= 3 nodes and every construct nested in filters/subscripts) alone and followed by each of 45 step kinds (accessors, methods, .decimal/datetime methods with and without arguments, filter); .** levels around 2^31, 2^32, 2^63, 2^64; plus refparse tree agreement on the exhaustive string enumerations of C04 (shorter bounds). non-trivial = every spelling (all distinct)")
+	r.Rule("abstract paths rendered in every permitted spelling and parsed by the implementation, tree compared through exported accessors with the abstract path the spelling was generated from: every escape spelling (\\xNN, \\uNNNN incl. surrogate pairs, \\u{N} in every digit count, \\b\\f\\n\\r\\t\\v, \\c) of every code point of a boundary set (thorough: every Unicode scalar value) in 5 quoted roles and as bare-identifier escapes x 12 followers; every XID_Start / XID_Continue code point below U+3100 (thorough: all) raw in a bare key and an unquoted variable (end of input, each white space, comments, punctuation); a numeric grid in decimal/hex/octal/binary/underscore/exponent/.5/5. forms x 11 positions x followers; every case pattern of every keyword; != vs <>; every operator pair (thorough: triple) with minimal and full parentheses, redundant parentheses, predicates and connectives, strict/lax; white space and comments at every token boundary of 130 seeds; every generated program (full language <= 3 nodes and every construct nested in filters/subscripts) alone and followed by each of 45 step kinds (accessors, methods, .decimal/datetime methods with and without arguments, filter); .** levels around 2^31, 2^32, 2^63, 2^64; plus refparse tree agreement on the exhaustive string enumerations of C04 (shorter bounds). non-trivial = every spelling (all distinct)")
 	var cases []spellCase
 	emit := func(sc spellCase) { cases = append(cases, sc) }
 	c03Cases(r.Thorough(), emit)
